@@ -18,7 +18,7 @@ An *event* is a list  [D, ra, re, wa, wd, we, tbi, tbv]:
 All inputs are applied (each in its own ctx.set, *before* the clock event; only if they differ from the value
 currently held, so that the documented power-on defaults en=1 / 0 are exercised) and held.
 The recorded *step* is the event followed by  outs (data output of every read port) and rows (every row read
-with ctx.get(mem.data[i])), both sampled after the event; values are the Python ints the simulator returns
+with ctx.get(mem.data[i])), both sampled right after the event's rising edges (the clocks fall afterwards); values are the Python ints the simulator returns
 (negative for signed rows); aggregate rows are recorded by their bit pattern (data.Const.as_bits())."""
 import random
 
@@ -149,10 +149,13 @@ def run(cfg, events):
                 ctx.set(d.mem.data[tbi - 1], tbv)
             if D:
                 ctx.set(clocks, D)
-                ctx.set(clocks, 0)
+            # sampled right after the active edges, before anything else happens (the inactive edge that follows
+            # must change nothing: the next step's observation would show it)
             outs = [_obs(ctx.get(p.data)) for p in d.rps]
             rows = [_obs(ctx.get(d.mem.data[i])) for i in range(cfg["depth"])]
             steps.append(list(ev) + [outs, rows])
+            if D:
+                ctx.set(clocks, 0)
 
     sim.add_testbench(tb)
     sim.run()
